@@ -198,6 +198,12 @@ def main(argv=None):
         st["ok"] = False
         st["failures"].append({"kind": "translator-validation", "detail": repr(e)})
 
+    # a changed default value of a translated function (the translation takes every argument explicitly)
+    for f_ in _src_functions(pid, st):
+        if f_.get("defaults_ok") is False:
+            st["ok"] = False
+            st["failures"].append({"kind": "translated-function-default-changed", "detail": f"{f_['function']}: defaults are now {f_['defaults']}"})
+
     compare = getattr(mod, "compare", lambda o, m, l: o == m)
     disagreements, flagged = [], []
     for i, l in enumerate(lines):
